@@ -27,6 +27,7 @@ func symDigits(tag string, n int, firstNonZero bool) string {
 
 var intLens = [...]int{1, 2, 17, 18, 19, 20, 21}
 var fracLens = [...]int{0, 1, 2, 17, 18, 19, 20}
+var specialShapes = [...][2]int{{1, 19}, {19, 18}}
 var expForms = [...]string{"", "e1", "E+12", "e-3", "e0007"}
 
 // numberLiteral builds -?I(.F)?(e[+-]?X)? with all digits of I and F symbolic.
@@ -34,17 +35,25 @@ var expForms = [...]string{"", "e1", "E+12", "e-3", "e0007"}
 // digit fraction (the FillBig threshold) in the simplest surroundings only.
 func numberLiteral() (lit string, desc string, special bool) {
 	neg := vx.Choose("neg", 2) == 1
-	k1 := intLens[vx.Choose("k1", vx.Param("K1", len(intLens)))]
+	i1 := vx.Choose("k1", vx.Param("K1", len(intLens)))
+	k1 := intLens[i1]
 	nk2 := vx.Param("K2", len(fracLens))
 	i2 := vx.Choose("k2", nk2+vx.Param("F19", 0))
-	k2 := 19
+	k2 := 0
 	if i2 < nk2 {
 		k2 = fracLens[i2]
 	} else {
+		// extra shapes of the quick tier: (1 digit).(19 digits) and
+		// (19 digits).(18 digits), each in the simplest surroundings only
 		special = true
+		sp := specialShapes[i2-nk2]
+		if i1 != 0 {
+			vx.Assume(false)
+		}
+		k1, k2 = sp[0], sp[1]
 	}
 	ex := expForms[vx.Choose("exp", vx.Param("EXP", len(expForms)))]
-	if special && (neg || k1 != 1 || ex != "") {
+	if special && (neg || ex != "") {
 		vx.Assume(false)
 	}
 	if neg {
